@@ -782,6 +782,12 @@ def gen_tree(rng, symbols, depth=0, maxdepth=4):
         return ("neg", gen_tree(rng, symbols, depth + 1, maxdepth))
     if k < 0.5:
         return ("mem", gen_tree(rng, symbols, depth + 1, maxdepth))
+    if rng.random() < 0.2:
+        # operands chosen at the edges of -32768..65535
+        edge = lambda: rng.choice([("int", 65535), ("int", 32768), ("int", 32769), ("int", 40000), ("neg", ("int", 32768)),
+                                   ("neg", ("int", 1)), ("int", 1), ("int", 0), ("neg", ("int", 2)), ("int", 2),
+                                   ("neg", ("int", 32767)), ("reg", rng.randrange(16))])
+        return ("bin", rng.choice("+-*/"), edge(), edge())
     return ("bin", rng.choice("+-*/"), gen_tree(rng, symbols, depth + 1, maxdepth),
             gen_tree(rng, symbols, depth + 1, maxdepth))
 
